@@ -16,6 +16,9 @@ k <= N and *every* splitting of a run is executed:
      iterations at once, for ALL (n, m), n+m <= N (thorough: also all 3-way splittings);
      for pdhg additionally: the run with the documented defaults (x_relax=None, y=None) equals the
      run with the explicit initial state;
+     random=True (adupdates vs adupdates_simple, kaczmarz vs a replay loop and its own split
+     runs): numpy's generator is seeded by the harness before each run from a fresh state and
+     carried over between the parts of a split run;
  (c) callbacks   every solver of the anchored files: the callback is called exactly once per
      iteration (per inner step where ``callback_loop='inner'`` is documented), record k is
      bit-for-bit the iterate after exactly k iterations, the final x is the last record.
@@ -1228,5 +1231,14 @@ def meta(tier):
             'are not named by the property: only (c) applies',
             'gauss_newton is always given a fresh zero_seq (its default is one generator object '
             'shared by all calls)',
+            'random=True (adupdates, kaczmarz): numpy.random.seed(s), s in %s, is set immediately '
+            'before every run that starts from a fresh state (optimised and reference alike) '
+            'and the generator state is carried over between the parts of a split run; every '
+            'order drawn through numpy.random.permutation is recorded and a state whose orders '
+            'are all the identity or never change within a call is counted as vacuous.  '
+            'kaczmarz has no shipped reference: the reference loop replays the orders the solver '
+            'drew (one per outer iteration, as documented) with single fixed-order steps' % (SEEDS,),
+            'mlem / osmlem: the sensitivities object (float, element, caller-owned list) is ONE '
+            'object per instance reused by all calls, as a caller resuming a run would do',
         ],
     }
